@@ -92,13 +92,30 @@ Sliver(rf) == IF "sliver" \in DOMAIN rf THEN rf.sliver ELSE 0
 SliverD2(rf, p) == LET q == Uvw(rf.ax, p) du == Excess(q[1], rf.hi[1], rf.hi[1] + Sliver(rf)) dv == q[2] - rf.hi[2]
                    IN du * du + dv * dv + (q[3] - rf.h) * (q[3] - rf.h)
 \* tolerances are given in half lattice units (dt2, pt2): d <= t/2  <=>  4 d^2 <= t^2
+\* optional wall: a second rectangle hanging from the edge u = hi[1] of the plate, perpendicular to it (in the plane u = hi[1],
+\* over the same v range, from the plate down to `wall` units below it), normal +u when wup.  The reference then has a crease:
+\* distance is to the nearer part, the planar and angle tolerances are judged against the plane / normal of that part; where
+\* both parts are equally near (the crease itself) either may be reported.
+Wall(rf) == IF "wall" \in DOMAIN rf THEN rf.wall ELSE 0
+WallPlanar2(rf, p) == LET q == Uvw(rf.ax, p) dv == Excess(q[2], rf.lo[2], rf.hi[2]) dw == Excess(q[3], rf.h - Wall(rf), rf.h)
+                      IN dv * dv + dw * dw
+WallD2(rf, p) == LET q == Uvw(rf.ax, p) IN WallPlanar2(rf, p) + (q[1] - rf.hi[1]) * (q[1] - rf.hi[1])
+WallAxis(rf) == Axis((rf.ax % 3) + 1, rf.wup)
+PartVerdict(c, d2, pl2, n, fnormal) ==
+    And3(Within(4 * d2, c.dt2 * c.dt2),
+         And3(IF c.hpt THEN Within(4 * pl2, c.pt2 * c.pt2) ELSE "T", IF c.had THEN AngleWithin(fnormal, n, c.adeg) ELSE "T"))
 VertexVerdict(rf, c, p, fnormal) ==
     LET onSliver == Sliver(rf) > 0 /\ SliverD2(rf, p) <= Dist2(rf, p)
         d2     == IF onSliver THEN SliverD2(rf, p) ELSE Dist2(rf, p)
         near   == Within(4 * d2, c.dt2 * c.dt2)
         planar == IF c.hpt THEN Within(4 * Planar2(rf, p), c.pt2 * c.pt2) ELSE "T"
         angle  == IF c.had THEN AngleWithin(fnormal, Axis(rf.ax, rf.up), c.adeg) ELSE "T"
-    IN IF onSliver /\ (c.hpt \/ c.had) THEN (IF near = "F" THEN "F" ELSE "free")
+    IN IF Wall(rf) > 0 THEN
+            LET pv == PartVerdict(c, Dist2(rf, p), Planar2(rf, p), Axis(rf.ax, rf.up), fnormal)
+                wv == PartVerdict(c, WallD2(rf, p), WallPlanar2(rf, p), WallAxis(rf), fnormal) IN
+            IF Dist2(rf, p) < WallD2(rf, p) THEN pv ELSE IF Dist2(rf, p) > WallD2(rf, p) THEN wv
+            ELSE IF pv = wv THEN pv ELSE "free"
+       ELSE IF onSliver /\ (c.hpt \/ c.had) THEN (IF near = "F" THEN "F" ELSE "free")
        ELSE And3(near, And3(planar, angle))
 NearVerdict(vpos, faces, f, c) ==
     LET t == Fc(faces, f) n == FaceNormal(vpos, faces, f)
